@@ -73,7 +73,8 @@ let run_ht ic =
       let call = match toks line with
         | ["N"] -> t := []; print_string "N\n"; None
         | ["O"; kk; obj; ok; a] -> Some (CRoot (k kk, z obj, ok = "1"), ans a)
-        | ["I"; kk; par; pk; sub; ok; a] -> Some (CIssue (k kk, z par, k pk, z sub, ok = "1"), ans a)
+        | ["I"; kk; par; pk; sub; ok; a] -> Some (CIssue (k kk, z par, k pk, z sub, ok = "1", z "0"), ans a)
+        | ["I"; kk; par; pk; sub; ok; a; "W"] -> Some (CIssue (k kk, z par, k pk, z sub, ok = "1", z "1"), ans a)
         | ["U"; kk; id; a] -> Some (CUse (k kk, z id), ans a)
         | ["L"; kk; id; a] -> Some (CRelease (k kk, z id), ans a)
         | ["P"; k1; id1; k2; id2; ok; a] -> Some (CPair (k k1, z id1, k k2, z id2, ok = "1"), ans a)
